@@ -140,7 +140,8 @@ class Model:
       args = [self._val(self.ev(a)) for a in e['args']]
       kwargs = {n: self._val(self.ev(v)) for n, v in e.get('kwargs', [])}
       self.calls[e['fn']] += 1
-      res = getattr(targets, e['fn'])(*args, **kwargs)
+      # a factory that returns a lazy object: the eager value is the object that lazy object stands for
+      res = targets.Counting(*args, **kwargs) if e['fn'] == 'make_lazy_counting' else getattr(targets, e['fn'])(*args, **kwargs)
     elif k == 'attr':
       res = getattr(self._val(self.ev(e['obj'])), e['name'])
     elif k == 'item':
@@ -352,6 +353,10 @@ def run_history(case):
             f'{w}: dereferencing gave {"LazyObjectMissingError" if got_exc else repr(got)}, model says {"missing" if want_exc else repr(want)}')
       if got_exc is None:
         check(_same_value(got, want), 'stale-or-wrong-object', f'{w}: dereferenced {got!r}, model {want!r}')
+        if isinstance(got, targets.Counting) and isinstance(want, targets.Counting):
+          # the held object is *the* object: a change made through one dereference is seen by the next one
+          got.bump(1)
+          want.bump(1)
     elif kind == 'flood':
       # n distinct cached expressions push older entries out of the bounded cache
       for i in range(op[1]):
@@ -406,8 +411,9 @@ def _list(depth):
 
 def _inst(depth):
   sub = st.deferred(lambda: _int(max(depth - 1, 0)))
-  return st.builds(lambda a, c, l: {'k': 'call', 'fn': 'make_counting', 'args': [a], 'cache': c and not l, 'lazy': l}, sub,
-                   st.sampled_from([True, True, False]), st.sampled_from([False, False, False, True]))
+  return st.builds(lambda a, c, l, f: {'k': 'call', 'fn': f, 'args': [a], 'cache': c and not l, 'lazy': l}, sub,
+                   st.sampled_from([True, True, False]), st.sampled_from([False, False, False, True]),
+                   st.sampled_from(['make_counting', 'make_counting', 'make_lazy_counting']))
 
 
 def _falsy(depth):
@@ -455,8 +461,11 @@ def strat_history(tier):
       ops += [['deref', 0], ['deref', 1]]
     if draw(st.integers(0, 4)) == 0:
       # a held object is dropped and then asked for: create one, clear the object store, dereference
-      exprs = exprs[:3] + [{'k': 'call', 'fn': 'make_counting', 'args': [{'c': draw(st.integers(0, 5))}], 'cache': False, 'lazy': True}]
-      ops += [['make', len(exprs) - 1], ['clear_object'], ['deref', draw(st.integers(0, 5))]]
+      exprs = exprs[:3] + [{'k': 'call', 'fn': draw(st.sampled_from(['make_counting', 'make_lazy_counting'])), 'args': [{'c': draw(st.integers(0, 5))}],
+                            'cache': False, 'lazy': True}]
+      # ... or kept and dereferenced repeatedly
+      ops += [['make', len(exprs) - 1]] + draw(st.sampled_from([[['clear_object'], ['deref', draw(st.integers(0, 5))]],
+                                                                 [['deref', 0], ['deref', 0], ['deref', 1]]]))
     if draw(st.integers(0, 3)) == 0:
       # calls on held objects and on traced constants (also None / falsy ones), cached and not, in a drawn order
       exprs = exprs[:3] + [{'k': 'call', 'fn': draw(st.sampled_from(['make_counting', 'counted_list', 'counted_falsy'])),
@@ -466,6 +475,14 @@ def strat_history(tier):
                                                        min_size=2, max_size=5))
       pos = draw(st.integers(0, len(ops)))
       ops[pos:pos] = block
+    if draw(st.integers(0, 4)) == 0:
+      # the same keyword arguments in two different orders, both cached: two different expressions (the callee sees the order)
+      va, vb = draw(st.integers(0, 5)), draw(st.integers(0, 5))
+      na, nb = draw(st.sampled_from([['a', 'b'], ['zeta', 'alpha'], ['x', 'y']]))
+      exprs = exprs[:2] + [{'k': 'call', 'fn': 'kw_names', 'args': [], 'kwargs': [[na, {'c': va}], [nb, {'c': vb}]], 'cache': True},
+                           {'k': 'call', 'fn': 'kw_names', 'args': [], 'kwargs': [[nb, {'c': vb}], [na, {'c': va}]], 'cache': True}]
+      i, j = len(exprs) - 2, len(exprs) - 1
+      ops += draw(st.sampled_from([[['make', i], ['make', j]], [['make', j], ['make', i], ['make', j]], [['make_pickled', i], ['make', j]]]))
     case = {'exprs': exprs, 'ops': ops}
     if draw(st.integers(0, 3)) == 0:
       case['arr_exprs'] = draw(st.lists(st.builds(
